@@ -125,7 +125,7 @@ def _class_members(cls):
 
 def positions(pos, n, op):
     """Concrete indices for a position class on a string of length n."""
-    top = n if op == 'ins' else n - 1      # ins may also append (index n)
+    top = n if op in ('ins', 'dup') else n - 1      # ins/dup may also append (index n)
     if top < 0:
         return [0] if op == 'ins' else []
     if pos == 'each':
@@ -149,7 +149,63 @@ def apply_edit(s, edit, idx, ch):
     if op == 'case':
         c = s[idx]
         return s[:idx] + (c.lower() if c.isupper() else c.upper()) + s[idx + 1:]
+    if op == 'dup':
+        return s[:idx] + ch + s[idx:]
     raise ValueError(op)
+
+
+def tokens(s):
+    """Maximal alphanumeric runs of s (for the 'dup' edit: repeat a token elsewhere)."""
+    import re
+    out = []
+    for t in re.findall(r'[0-9A-Za-z]+', s):
+        for v in (t, t.lower(), t.upper()):
+            if v not in out:
+                out.append(v)
+        if len(t) > 2 and t[:2] not in out:
+            out.append(t[:2])
+    return out[:8]
+
+
+def literals(mod, minlen=2, maxlen=40, cap=400):
+    """String constants of a module's source (court names, aliases, prefixes, table keys): raw
+    material for token substitution."""
+    import ast, inspect
+    try:
+        tree = ast.parse(inspect.getsource(mod))
+    except Exception:
+        return []
+    doc = set()
+    for node in ast.walk(tree):
+        if isinstance(node, (ast.Module, ast.FunctionDef, ast.ClassDef)):
+            d = ast.get_docstring(node, clean=False)
+            if d:
+                doc.add(d)
+    out = []
+    for node in ast.walk(tree):
+        if isinstance(node, ast.Constant) and isinstance(node.value, str):
+            v = node.value
+            if v in doc or not (minlen <= len(v) <= maxlen) or '\n' in v:
+                continue
+            if v not in out:
+                out.append(v)
+    return out[:cap]
+
+
+def substitute_tokens(base, lits):
+    """base with one of its word tokens (split on spaces; also alphabetic runs) replaced by a literal."""
+    import re
+    out = []
+    words = base.split(' ')
+    for i in range(len(words)):
+        for L in lits:
+            if L != words[i]:
+                out.append(' '.join(words[:i] + [L] + words[i + 1:]))
+    for m in re.finditer(r'[A-Za-z\u00c0-\u024f]{2,}', base):
+        for L in lits:
+            if L.isalpha() and L != m.group(0):
+                out.append(base[:m.start()] + L + base[m.end():])
+    return out
 
 
 def concretise(base, script, rnd, k=1, max_out=None):
@@ -160,7 +216,10 @@ def concretise(base, script, rnd, k=1, max_out=None):
         for s, desc in results:
             for idx in positions(edit['pos'], len(s), edit['op']):
                 at = s[idx] if idx < len(s) else ''
-                if edit['op'] in ('ins', 'rep'):
+                if edit['op'] == 'dup':
+                    for t in tokens(s):
+                        nxt.append((apply_edit(s, edit, idx, t), '%s dup %r@%d' % (desc, t, idx)))
+                elif edit['op'] in ('ins', 'rep'):
                     for ch in chars_for(edit['ch'], at if edit['op'] == 'rep' else '', rnd, k):
                         nxt.append((apply_edit(s, edit, idx, ch), '%s %s %s@%d U+%04X' % (desc, edit['op'], edit['ch'], idx, ord(ch))))
                 else:
